@@ -21,7 +21,9 @@ Case kinds
   bool  : tol_screen=True/False must be rejected.
 Streams (tag prefix): rand (cutoff-scaled random geometry), grid (generic grid geometry), near (pairs
 placed at the cutoff to 1 ulp: either answer), edge (pairs at cutoff*(1 +- 2^-20 / 2^-27): definite),
-minmax (the largest / first / last exponent would give the other decision) (v)."""
+minmax (the largest / first / last exponent would give the other decision) (v), history (kind "history": a sequence
+of screened calls on the SAME shell objects with exponent changes - setter or in place, then assign_norm_cont() - in
+between; every call judged by the model for the shells as they are at that call; see eval_history)."""
 import math
 import random
 from fractions import Fraction
@@ -37,7 +39,17 @@ RULE = ("bases of 2-5 shells, l 0..3, 1-4 primitives with exponents log-uniform 
         "representable, 0..30 bohr) or on a 1/16 grid; tolerances 2^-k (k=1..53), decimal doubles 1e-16..0.5 and "
         "log-uniform doubles, always with None; with/without transform; separate streams: pairs at the cutoff to "
         "1 ulp (either answer accepted), pairs at cutoff*(1 +- 2^-20), (1 +- 2^-27) (definite answer demanded), "
-        "min-vs-max-exponent discriminating pairs, bool tolerance. A basis case is non-trivial when at least one "
+        "min-vs-max-exponent discriminating pairs, bool tolerance. HISTORY stream (tag 'history', detail kind "
+        "'history'; 36 quick / 400 thorough): ONE list of 2-3 shell objects (l 0..2) lives through three calls: screened "
+        "call -> the exponents of shell 0 (40%: also shell 1) are changed so that the smallest one moves by a factor "
+        "4..50 down (tight->diffuse) or up (all exponents scaled, or only the smallest moved; through the setter "
+        "shell.exps = array or in place shell.exps[...] = array, alternating), then shell.assign_norm_cont() -> screened "
+        "call with pair (0,1) at a distance strictly between the old and the new cutoff (5% margins) -> exponents "
+        "restored by the other mechanism -> screened call; level overlap_integral (2/3) or construct_array_contraction "
+        "for every ordered pair (1/3); EVERY call is compared with the exact model of the rule for the shells as they "
+        "are at that call (removed blocks exactly zero, kept blocks = unscreened call on the same objects and = exact "
+        "model); a history case is non-trivial when the previous exponents would decide some pair the other way; "
+        "shrinking keeps >= 2 calls and runs every candidate in a fresh process. A basis case is non-trivial when at least one "
         "block is removed and one off-diagonal block is kept over its tolerances (or it belongs to a special "
         "stream and the stream's premise holds); distinct by hash of the exact input")
 ASSUMPTIONS = [
